@@ -15,6 +15,7 @@ pub fn cfg() -> Cfg {
         multi_examples: true,
         max_res: 4,
         max_decls: 8,
+        shadow_pct: 12,
         ..Cfg::default()
     }
 }
